@@ -106,7 +106,6 @@ theorem readRetry_safe (H : Hpke) (n : Nat) (st : St) (t1 : Tr) (r : Bytes)
     have := hnp e he
     refine ⟨by simpa using this, ?_⟩
     simp only [alertViaConn]
-    rw [(connWrite_frame _ _ _).2.2.2.2.2.2.1]
     simpa using this
   · rename_i o inner st2 hok
     obtain ⟨_, _, _, hproc, hrc⟩ := handle_inv H _ st2 r true o inner hok
@@ -357,7 +356,6 @@ theorem C08_read_bound (H : Hpke) (st : St) (t : Tr) (n : Nat) :
         · unfold readRetry
           split
           · simp only [alertViaConn]
-            rw [(connWrite_frame _ _ _).2.2.2.2.2.1]
             simp [hc.2.1]
           · rename_i o inner st2 hok
             cases inner with
